@@ -325,7 +325,7 @@ func (dec *Decoder) LastReferenceIndex() int {
 func (dec *Decoder) ReadReference(p interface{}) {
 	i := dec.ReadInt()
 	o, ok := dec.refer.Read(i)
-	if !ok {
+	if !ok || o == nil {
 		if dec.Error == nil {
 			dec.Error = DecodeError("hprose/io: invalid reference " + strconv.Itoa(i))
 		}
